@@ -1,6 +1,7 @@
 use crate::engine::{DynModel, Report, Tier};
 
 pub mod hist;
+pub mod tsurf;
 
 macro_rules! props {
     ($(($id:literal, $m:ident)),* $(,)?) => {
